@@ -3,6 +3,7 @@
 set -e
 cd "$(dirname "$0")"
 export CARGO_NET_OFFLINE=true
-(cd lean && lake build RbpfModel rbpf_model)
+MODS=$(python3 -c "import json;print(' '.join(sorted({v['module'] for v in json.load(open('lean/obligations.json')).values()})))")
+(cd lean && lake build $MODS rbpf_model)
 (cd harness && RUSTFLAGS="--cfg rbpf_verif" cargo build --release --offline)
 echo "setup done"
